@@ -57,9 +57,14 @@ func (in *interp) builtinNum(fr *frame, e *a.Expr) value {
 		if name == "low_bits" {
 			return value{k: vkNum, n: nU(x.wrap(bits) & (uint64(1)<<n.u - 1))}
 		}
-		// high_bits: (x) >> (bits - n); n == 0 shifts by the full width, which
-		// the ideal semantics define as 0.
+		// high_bits: (x) >> (bits - n); n == 0 shifts by the full width. The
+		// language (and the checker's own bound, bitMask(0)) says 0; the
+		// generated C for base.u32 / base.u64 is undefined there.
 		if n.u == 0 {
+			if bits >= 32 && in.monitoring() {
+				in.event(Event{Prop: "C01", Kind: "cgen-ub:high_bits(n:0)", Node: in.nodeText(fr, e), Line: fr.line,
+					Values: x.String() + ".high_bits(n: 0)", Limit: "n >= 1 in the generated C"})
+			}
 			return value{k: vkNum}
 		}
 		return value{k: vkNum, n: nU(x.wrap(bits) >> (uint64(bits) - n.u))}
@@ -422,7 +427,13 @@ func (in *interp) builtinWriter(fr *frame, e *a.Expr, vr *variable, io *ioState,
 		return value{k: vkNum, n: nU(uint64(n))}
 	case "limited_copy_u32_from_reader":
 		up := in.argNum(fr, e, 0)
-		rv := in.ioVar(fr, e.Args()[1].AsArg().Value())
+		re := e.Args()[1].AsArg().Value()
+		if id := re.IsArgsDotFoo(); id != 0 && !fr.fn.derivedArgs[id] {
+			// internal/cgen/var.go needDerivedVar only looks at method calls on
+			// the argument itself: the C refers to an undeclared iop_a_xxx.
+			unsupp("I/O argument only used as an argument of a built-in: wuffs-c emits invalid C")
+		}
+		rv := in.ioVar(fr, re)
 		r := rv.v.io
 		n := avail
 		if up.isU64() && uint64(n) > up.u {
